@@ -289,7 +289,9 @@ class ReuseDep5(GlobalLicensing):
         # surface later as a read error of every file that is looked up.
         for expression in expressions:
             try:
-                _LICENSING.parse(expression)
+                # An empty synopsis parses to None.
+                if _LICENSING.parse(expression) is None:
+                    raise ValueError("empty License field")
             except Exception as error:
                 raise GlobalLicensingParseValueError(
                     _("Could not parse '{expression}'").format(
